@@ -90,7 +90,9 @@ def allPlacedIfRoomB (src out : Chart) : Bool :=
 
 /-- no file name of the source contains the separator `;` (else `";".join` / `.split(";")` cuts it: D19c) -/
 def noSep (src : Chart) : Bool := (notesOf src).all (fun n => !n.file.contains sep)
-/-- every hold has a length (a NaN length makes the tail of `hitsound_copy` file the hold under hits: D19d) -/
+/-- every hold has a length — a domain hypothesis: the property quantifies over charts with "hits and holds on
+either side", and a hold is a note with a length (zero and negative lengths included). A row of the hold list
+whose length is NaN is not such a chart; the tail of `hitsound_copy` files it under hits (`nan_hold_counterexample`). -/
 def holdsHaveLength (c : Chart) : Bool := c.holds.all (fun n => n.length.isSome)
 
 end Reamber.Hitsound
